@@ -277,7 +277,12 @@ def pipeline_case(args):
             changed += 1
         if strategy == "none" and cb != list(blocks):
             errs.append(("none-changes-alignment", "strategy none: read %s %s input %s corrected %s" % (nm, list(devs), blocks, cb)))
-        terminal_ok = flags[3] or flags[4]
+        # start / end may move only through a terminal correction the strategy enables: removal of a short spurious terminal exon (flag 4)
+        # for reads that carry one, re-placement of a misplaced terminal exon (flag 3) for reads that carry one
+        names_ = set(x[0] for x in devs)
+        terminal_ok = (flags[4] and bool(names_ & {"fake-left", "fake-right", "tiny-first", "tiny-last"})) or \
+                      (flags[3] and bool(names_ & {"misplaced-first", "misplaced-last", "misplaced-first-inside", "fake-left", "fake-right",
+                                                   "tiny-first", "tiny-last"}))
         if not terminal_ok and (cb[0][0] != blocks[0][0] or cb[-1][1] != blocks[-1][1]):
             errs.append(("start-end-moved:" + kinds, "strategy %s has no terminal-exon correction but read %s %s moved from %d-%d to %d-%d" %
                          (strategy, nm, list(devs), blocks[0][0], blocks[-1][1], cb[0][0], cb[-1][1])))
